@@ -13,11 +13,14 @@ package main
 //	hist q|s <impl> t=T k=K seed=S         T threads × K random calls, free-running; the recorded history is searched for a
 //	                                       linearization (exhaustive, ≤ 12 calls); ok linearizable ops=T*K | viol not-linearizable …
 //
-// <impl>: llq = LinkedListQueue, chq = ChannelQueue (Offer/Poll only: its Put/Take block while the wrapper's lock is held).
+// <impl>: llq = LinkedListQueue, chq = ChannelQueue (Offer/Poll only: its Put/Take block while the wrapper's lock is held),
+// ring<K> = the harness' own bounded (capacity K), deliberately non-thread-safe ring buffer that counts overlapping
+// entries (`viol overlap`) and reports full (`full`) instead of waiting; stress producers retry on full.
 
 import (
 	"fmt"
 	"math/rand"
+	"runtime"
 	"sort"
 	"strconv"
 	"strings"
@@ -33,9 +36,104 @@ type c08Obj struct {
 	take, poll func() (int, error)
 	push       func(int) error
 	pop        func() (int, error)
+	ring       *c08Ring // non-nil when the wrapped object is the harness' own bounded ring buffer
+}
+
+// c08Ring is a second wrapped implementation: a BOUNDED, deliberately NOT goroutine-safe deque of ints (the kind
+// of Queue/Stack the wrappers exist to protect).  Offer/Put/Push report Err…IsFull when there is no room (Put
+// does not wait: under the wrapper's lock nobody could make room).  Every method counts the callers that are
+// inside it at the same moment; with a correct wrapper that is never more than one.  The updates are split
+// around a runtime.Gosched() so that an unserialised caller really tears the structure.
+type c08Ring struct {
+	buf        []int
+	head, size int
+	inside     int32
+	overlaps   int64
+}
+
+func newC08Ring(capacity int) *c08Ring { return &c08Ring{buf: make([]int, capacity)} }
+
+func (r *c08Ring) enter() {
+	if atomic.AddInt32(&r.inside, 1) > 1 {
+		atomic.AddInt64(&r.overlaps, 1)
+	}
+}
+func (r *c08Ring) leave() { atomic.AddInt32(&r.inside, -1) }
+
+func (r *c08Ring) insert(val int) bool {
+	size := r.size
+	if size >= len(r.buf) {
+		return false
+	}
+	r.buf[(r.head+size)%len(r.buf)] = val
+	runtime.Gosched()
+	r.size = size + 1
+	return true
+}
+func (r *c08Ring) Offer(val int) error {
+	r.enter()
+	defer r.leave()
+	if !r.insert(val) {
+		return fpgo.ErrQueueIsFull
+	}
+	return nil
+}
+func (r *c08Ring) Put(val int) error { return r.Offer(val) }
+func (r *c08Ring) Push(val int) error {
+	r.enter()
+	defer r.leave()
+	if !r.insert(val) {
+		return fpgo.ErrStackIsFull
+	}
+	return nil
+}
+func (r *c08Ring) Poll() (int, error) {
+	r.enter()
+	defer r.leave()
+	size := r.size
+	if size == 0 {
+		return 0, fpgo.ErrQueueIsEmpty
+	}
+	val := r.buf[r.head]
+	head := (r.head + 1) % len(r.buf)
+	runtime.Gosched()
+	r.head = head
+	r.size = size - 1
+	return val, nil
+}
+func (r *c08Ring) Take() (int, error) { return r.Poll() }
+func (r *c08Ring) Pop() (int, error) {
+	r.enter()
+	defer r.leave()
+	size := r.size
+	if size == 0 {
+		return 0, fpgo.ErrStackIsEmpty
+	}
+	val := r.buf[(r.head+size-1)%len(r.buf)]
+	runtime.Gosched()
+	r.size = size - 1
+	return val, nil
+}
+
+// c08RingCap parses "ring<K>"; 0 = not a ring (unbounded wrapped object).
+func c08RingCap(impl string) int {
+	if strings.HasPrefix(impl, "ring") {
+		k, _ := strconv.Atoi(impl[4:])
+		return k
+	}
+	return 0
 }
 
 func c08New(kind, impl string, capacity int) *c08Obj {
+	if k := c08RingCap(impl); k > 0 {
+		ring := newC08Ring(k)
+		if kind == "q" {
+			q := fpgo.NewConcurrentQueue[int](fpgo.Queue[int](ring))
+			return &c08Obj{put: q.Put, offer: q.Offer, take: q.Take, poll: q.Poll, ring: ring}
+		}
+		st := fpgo.NewConcurrentStack[int](fpgo.Stack[int](ring))
+		return &c08Obj{push: st.Push, pop: st.Pop, ring: ring}
+	}
 	if kind == "q" {
 		var inner fpgo.Queue[int]
 		if impl == "chq" {
@@ -57,7 +155,17 @@ func c08ShowErr(err error) string {
 	if err == fpgo.ErrQueueIsEmpty || err == fpgo.ErrStackIsEmpty {
 		return "empty"
 	}
+	if err == fpgo.ErrQueueIsFull || err == fpgo.ErrStackIsFull {
+		return "full"
+	}
 	return "err-other"
+}
+
+func (o *c08Obj) overlaps() int64 {
+	if o.ring == nil {
+		return 0
+	}
+	return atomic.LoadInt64(&o.ring.overlaps)
 }
 
 func c08ShowVal(v int, err error) string {
@@ -149,21 +257,29 @@ func c08Stress(kind, impl string, p, c, n int, seed int64) string {
 			defer func() { calls[t] = mine }()
 			for i := 0; i < n; i++ {
 				v := t*100000 + i
-				inv := atomic.AddInt64(&clock, 1)
-				var err error
-				switch {
-				case kind == "s":
-					err = o.push(v)
-				case impl == "chq" || i%2 == 0:
-					err = o.offer(v)
-				default:
-					err = o.put(v)
+				for {
+					inv := atomic.AddInt64(&clock, 1)
+					var err error
+					switch {
+					case kind == "s":
+						err = o.push(v)
+					case impl == "chq" || i%2 == 0:
+						err = o.offer(v)
+					default:
+						err = o.put(v)
+					}
+					res := atomic.AddInt64(&clock, 1)
+					if err == nil {
+						mine = append(mine, c08Call{thread: t, insert: true, val: v, inv: inv, res: res})
+						break
+					}
+					if o.ring != nil && (err == fpgo.ErrQueueIsFull || err == fpgo.ErrStackIsFull) {
+						runtime.Gosched() // a bounded wrapped object: retry until a consumer has made room
+						continue
+					}
+					atomic.AddInt64(&panics, 1000000) // an insertion may not fail otherwise
+					return
 				}
-				res := atomic.AddInt64(&clock, 1)
-				if err != nil {
-					atomic.AddInt64(&panics, 1000000) // an insertion may not fail here
-				}
-				mine = append(mine, c08Call{thread: t, insert: true, val: v, inv: inv, res: res})
 			}
 		}(t)
 	}
@@ -222,6 +338,9 @@ func c08Stress(kind, impl string, p, c, n int, seed int64) string {
 	_ = seed
 	close(start)
 	wg.Wait()
+	if ov := o.overlaps(); ov != 0 {
+		return fmt.Sprintf("viol overlap %d times two goroutines were inside the wrapped object at once", ov)
+	}
 	if k := atomic.LoadInt64(&panics); k != 0 {
 		if k >= 1000000 {
 			return "viol unexpected-error"
@@ -289,9 +408,12 @@ type c08HOp struct {
 	inv, res int64
 }
 
-func c08SeqApply(kind string, content []int, op c08HOp) ([]int, string) {
+func c08SeqApply(capacity int, content []int, op c08HOp) ([]int, string) {
 	switch op.name {
 	case "offer", "put", "push":
+		if capacity > 0 && len(content) >= capacity {
+			return content, "full"
+		}
 		return append(append([]int{}, content...), op.arg), "nil"
 	case "poll", "take":
 		if len(content) == 0 {
@@ -307,7 +429,7 @@ func c08SeqApply(kind string, content []int, op c08HOp) ([]int, string) {
 	return content, "bad"
 }
 
-func c08Linearizable(kind string, ops []c08HOp) bool {
+func c08Linearizable(capacity int, ops []c08HOp) bool {
 	n := len(ops)
 	full := (1 << uint(n)) - 1
 	dead := map[string]bool{}
@@ -331,7 +453,7 @@ func c08Linearizable(kind string, ops []c08HOp) bool {
 			if mask&(1<<uint(i)) != 0 || ops[i].inv > minRes {
 				continue
 			}
-			next, ret := c08SeqApply(kind, content, ops[i])
+			next, ret := c08SeqApply(capacity, content, ops[i])
 			if ret == ops[i].ret && rec(mask|1<<uint(i), next) {
 				return true
 			}
@@ -392,6 +514,9 @@ func c08Hist(kind, impl string, t, k int, seed int64) string {
 	}
 	close(start)
 	wg.Wait()
+	if ov := o.overlaps(); ov != 0 {
+		return fmt.Sprintf("viol overlap %d times two goroutines were inside the wrapped object at once", ov)
+	}
 	if panics != 0 {
 		return "viol panic"
 	}
@@ -402,7 +527,7 @@ func c08Hist(kind, impl string, t, k int, seed int64) string {
 	if len(ops) > 16 {
 		return "bad-case too many calls for the exhaustive search"
 	}
-	if !c08Linearizable(kind, ops) {
+	if !c08Linearizable(c08RingCap(impl), ops) {
 		sort.Slice(ops, func(i, j int) bool { return ops[i].inv < ops[j].inv })
 		var sb strings.Builder
 		for _, op := range ops {
@@ -432,6 +557,9 @@ func c08Run(line string) string {
 			if t != "" {
 				outs = append(outs, c08Tok(o, t))
 			}
+		}
+		if o.overlaps() != 0 {
+			return "viol overlap"
 		}
 		return strings.Join(outs, " | ")
 	case "stress":
@@ -483,15 +611,18 @@ func c08Gen(tier string, rng *rand.Rand, emit func(string)) map[string]interface
 	exh("seq q llq", []string{"put", "offer", "take", "poll"}, ql)
 	exh("seq s llq", []string{"push", "pop"}, sl)
 	exh("seq q chq", []string{"offer", "poll"}, cl)
+	exh("seq q ring2", []string{"put", "offer", "take", "poll"}, ql)
+	exh("seq s ring2", []string{"push", "pop"}, sl)
+	exh("seq q ring1", []string{"put", "poll"}, cl)
 	nRand := 150
 	if thorough {
 		nRand = 1500
 	}
 	for i := 0; i < nRand; i++ {
 		n := 1 + rng.Intn(60)
-		heads := []string{"seq q llq", "seq s llq", "seq q chq"}
-		alph := [][]string{{"put", "offer", "take", "poll"}, {"push", "pop"}, {"offer", "poll"}}
-		k := rng.Intn(3)
+		heads := []string{"seq q llq", "seq s llq", "seq q chq", "seq q ring3", "seq s ring3"}
+		alph := [][]string{{"put", "offer", "take", "poll"}, {"push", "pop"}, {"offer", "poll"}, {"put", "offer", "take", "poll"}, {"push", "pop"}}
+		k := rng.Intn(5)
 		ops := make([]string, n)
 		for j := range ops {
 			a := alph[k]
@@ -526,6 +657,18 @@ func c08Gen(tier string, rng *rand.Rand, emit func(string)) map[string]interface
 				emit(fmt.Sprintf("stress %s p=%d c=%d n=%d seed=%d", ki, cf.p, cf.c, n/cf.p+1+rng.Intn(50), rng.Intn(1000000)))
 				stressCases++
 			}
+			// the bounded, non-thread-safe ring buffer (capacity 1..3): producers retry while it reports full
+			ringKinds := []string{"q", "s"}
+			if !thorough {
+				ringKinds = ringKinds[(cf.p+cf.c)%2 : (cf.p+cf.c)%2+1]
+				if cf.p*cf.c == 1 || (cf.p+cf.c)%5 == 0 {
+					ringKinds = []string{"q", "s"}
+				}
+			}
+			for _, rk := range ringKinds {
+				emit(fmt.Sprintf("stress %s ring%d p=%d c=%d n=%d seed=%d", rk, 1+rng.Intn(3), cf.p, cf.c, (n/2)/cf.p+1+rng.Intn(20), rng.Intn(1000000)))
+				stressCases++
+			}
 		}
 	}
 	// 3. small free-running histories, searched exhaustively for a linearization
@@ -536,7 +679,7 @@ func c08Gen(tier string, rng *rand.Rand, emit func(string)) map[string]interface
 	for i := 0; i < nh; i++ {
 		t := 2 + rng.Intn(3)
 		k := 1 + rng.Intn(12/t)
-		ki := []string{"q llq", "s llq", "q chq"}[rng.Intn(3)]
+		ki := []string{"q llq", "s llq", "q chq", "q ring1", "q ring2", "s ring2"}[rng.Intn(6)]
 		emit(fmt.Sprintf("hist %s t=%d k=%d seed=%d", ki, t, k, rng.Intn(1000000)))
 		histCases++
 	}
